@@ -49,10 +49,10 @@ theorem runMean_spec (errs : List Rat) : ∀ (a : Rat) (m : Nat), 0 < m + errs.l
     grind
 
 theorem penalty_pos : (0 : Rat) < (penalty : Rat) := by
-  show (0:Rat) < 1797693134862315633301262629765050630866728936377003738459752501701914801454763796210449641241516314779480883561305033792001456611676070178718250902275612892141556670084334558762242165238180420033094130920939320073544954448635079731752693526288593899415905695239791325170347763968341437224060469123940876288
+  show (0:Rat) < 179769313486231570814527423731704356798070567525844996598917476803157260780028538760589558632766878171540458953514382464234321326889464182768467546703537516986049910576551282076245490090389328944075868508455133942304583236903222948165808559332123348274797826204144723168738177180919299881250404026184124858368 / 100
   grind
 theorem penalty_ge_one : (1 : Rat) ≤ (penalty : Rat) := by
-  show (1:Rat) ≤ 1797693134862315633301262629765050630866728936377003738459752501701914801454763796210449641241516314779480883561305033792001456611676070178718250902275612892141556670084334558762242165238180420033094130920939320073544954448635079731752693526288593899415905695239791325170347763968341437224060469123940876288
+  show (1:Rat) ≤ 179769313486231570814527423731704356798070567525844996598917476803157260780028538760589558632766878171540458953514382464234321326889464182768467546703537516986049910576551282076245490090389328944075868508455133942304583236903222948165808559332123348274797826204144723168738177180919299881250404026184124858368 / 100
   grind
 theorem tol_nonneg : (0 : Rat) ≤ 10 / 2 ^ 1022 := by grind
 theorem eps2_pos : (0 : Rat) < 1 / 2 ^ 51 := by grind
